@@ -324,8 +324,12 @@ def run_stall(job, acc=None):
     if arrived != sorted(arrived):
         return ('reports-overtake-each-other', f'delay={delay}', {'arrival_order': arrived, 'stalled_delivery': k})
     missing = [v for v in committed if v not in arrived]
-    if missing:
-        return ('committed-version-never-delivered', f'delay={delay}', {'missing': missing, 'arrived': arrived})
+    # a delivery that takes longer than the provider's notification timeout is a failed delivery: the subscription is ended
+    # (C08), later versions are then not sent any more - completeness is required only for stalls below the timeout
+    timeout = getattr(walk.provider, '_socket_timeout', None) or 0
+    if missing and delay < timeout:
+        return ('committed-version-never-delivered', f'delay={delay}', {'missing': missing, 'arrived': arrived,
+                                                                         'notification_timeout': timeout})
     return None
 
 
